@@ -233,6 +233,31 @@ func runC17(c *mon.Ctx) {
 			}
 		}
 	}
+	if c.Mine(1) {
+		c.Case("montgomery-small-and-limb-structured", func() {
+			rng := c.Rand("montsmall")
+			for k := int64(1); k <= 300; k++ {
+				v := new(big.Int).Mod(new(big.Int).Mul(big.NewInt(k), rInvFp), ref.P) // raw limbs {k,0,0,0}
+				both(v, "montgomery-small")
+				c17point(c, v, "montgomery-small")
+				if x := c17xFromY(v); x != nil {
+					c17point(c, x, "y-montgomery-small")
+				}
+			}
+			for _, sh := range []uint{64, 128, 192} {
+				for k := int64(1); k <= 8; k++ {
+					raw := new(big.Int).Lsh(big.NewInt(k), sh) // raw limbs with a single small limb set
+					both(new(big.Int).Mod(new(big.Int).Mul(raw, rInvFp), ref.P), "montgomery-single-limb")
+				}
+			}
+			for _, v := range limbNeighbours(ref.P, rng) {
+				both(new(big.Int).Mod(v, ref.P), "limb-neighbour-of-p")
+			}
+			for _, v := range repLambdas {
+				both(new(big.Int).Mod(v, ref.P), "limb-structured")
+			}
+		})
+	}
 	if c.Mine(0) {
 		c.Case("y-adjacent-to-thresholds", func() {
 			for _, x := range c17thresholdXs() {
